@@ -121,7 +121,7 @@ def eq_terms(a: Term, b: Term):
         lv = {}
 
         def at(t):
-            if t[0] in ("loopvar", "elem", "sym"):
+            if t[0] in ("loopvar", "elem", "sym", "attr", "sub"):
                 return lv.setdefault(t, sp.Symbol(f"i{len(lv)}", integer=True))
             return None
         try:
@@ -156,6 +156,10 @@ def _is_index_expr(t: Term) -> bool:
         return True
     if k == "elem":
         return t[1][0] == "loopvar"
+    if k == "attr":
+        return t[2] in ("nparticle", "nsnapshots")        # integer counts
+    if k in ("sub", "elem") and t[1][0] == "attr" and t[1][2] == "shape":
+        return True
     if k == "bin":
         return t[1] in ("+", "-", "*") and _is_index_expr(t[2]) and _is_index_expr(t[3])
     if k == "un":
